@@ -59,9 +59,10 @@ func c11Perms(n int) [][]int {
 
 func TestVerifC11Load(t *testing.T) {
 	L := ev.Begin("C11", "c11-load", "exploration",
-		"every subset of 8 file groups (split pair a-cert/a-key, combined b.pem, combined 0.pem sorting first, split pair z, cert without key, key without cert, pair whose key belongs to another certificate, a non-pem file) through the real loadCertificates, with the iteration order of the file map owned by the harness: all permutations for sets of <=5 files, sorted / reversed / every rotation above. oracle: the result holds exactly the usable certificates, each with its own private key, ordered by certificate file name (so the default certificate is the one of the first file), an error is reported iff some group is unusable, and the result does not depend on the iteration order. non-trivial = sets with >=2 usable certificates")
+		"every subset of 9 file groups (a pair whose name extends another file's name, split pair a-cert/a-key, combined b.pem, combined 0.pem sorting first, split pair z, cert without key, key without cert, pair whose key belongs to another certificate, a non-pem file) through the real loadCertificates, with the iteration order of the file map owned by the harness: all permutations for sets of <=5 files, sorted / reversed / every rotation above. oracle: the result holds exactly the usable certificates, each with its own private key, ordered by certificate file name (so the default certificate is the one of the first file), an error is reported iff some group is unusable, and the result does not depend on the iteration order. non-trivial = sets with >=2 usable certificates")
 	mk := func(label string) c11Cert { return c11Make(label, label+".example") }
-	a, b, zero, z, c, d := mk("a"), mk("b"), mk("zero"), mk("z"), mk("c"), mk("d")
+	a, b, zero, z, c, d, b25 := mk("a"), mk("b"), mk("zero"), mk("z"), mk("c"), mk("d"), mk("b2025")
+	b25C, b25K := c11Split(b25)
 	aC, aK := c11Split(a)
 	zC, zK := c11Split(z)
 	cC, _ := c11Split(c)
@@ -82,6 +83,8 @@ func TestVerifC11Load(t *testing.T) {
 		{map[string][]byte{"/p/e-key.pem": eK}, "", true, ""},
 		{map[string][]byte{"/p/d-cert.pem": dC, "/p/d-key.pem": aK}, "", true, ""},
 		{map[string][]byte{"/p/readme.txt": []byte("not a certificate")}, "", false, ""},
+		// a pair whose name extends the name of another file: "/p/b-2025-cert.pem" sorts before "/p/b.pem"
+		{map[string][]byte{"/p/b-2025-cert.pem": b25C, "/p/b-2025-key.pem": b25K}, "b2025", false, "/p/b-2025-cert.pem"},
 	}
 	for mask := 1; mask < 1<<len(groups); mask++ {
 		blocks := map[string][]byte{}
